@@ -125,7 +125,7 @@ class ExprMixin:
             return Static('class:' + i)
         if i in ('len', 'isinstance', 'type', 'abs', 'max', 'min', 'sum', 'any', 'all', 'repr', 'range', 'enumerate',
                  'zip', 'filter', 'map', 'sorted', 'trunc', 'ceil', 'floor', 'round', 'hasattr', 'getattr', 'open',
-                 'print', 'set', 'frozenset', 'hash'):
+                 'print', 'set', 'frozenset', 'hash', 'callable'):
             return Static('builtin:' + i)
         if i in self.reg.classes:
             return Static('class:' + i)
